@@ -514,6 +514,17 @@ func (Sim) Run(raw json.RawMessage, prop string, keep bool) (res simfw.Result) {
 				}
 				missing, known := false, false
 				for _, t := range resolveSet(rootBase, ref) {
+					// (the clause speaks of the document the loader was given: after a torn or otherwise faulted
+					// delivery of the target in this load it worked from other content)
+					faulted := false
+					for _, ev := range st.Events[first:] {
+						if ev.Loc == t && ev.Fault != "" {
+							faulted = true
+						}
+					}
+					if faulted {
+						continue
+					}
 					if c, ok := st.Files[t]; ok {
 						known = true
 						var doc any
